@@ -5,8 +5,8 @@ import vlib
 
 META = {
     "category": "model_checking",
-    "text": "Xfr.tla transcribes the transfer sender (AXFR/IXFR sequences, any packaging into messages), XfrResponseInterpreter (check_response, process_record, the update iterator), ZoneUpdater::apply on committed+pending content and the commit-time diff capture, next to a declarative reading of a record stream after RFC 5936 2.2 / RFC 1995 4. TLC checks, for every old/new zone pair over a small record universe, every packaging into up to three messages and every single message fault (drop, duplicate, swap, truncate, header corruption, wrong question, a SOA with the same serial but other RDATA) at every position, that transfers reproduce the sender's zone, that every version a reader can see is one the stream completely described, that reported diffs applied to the old content give the new content, and that invalid streams end in an error without panic. Every explored stream is rendered with the real MessageBuilder and replayed through the real interpreter + updater on a real in-memory zone (updates, errors, diffs and walk() content compared after every message); recorded runs of the real XfrMiddlewareSvc sender (AXFR and IXFR from every serial, multi-message) are validated by TLC against the model and fed back through the real receiver.",
-    "note": "Trusted: TLC, the transcription in Xfr.tla, the harness projections. Four named deviations are open (interpreter panic on a non-XFR question type, duplicate RRs kept, commit diff not the net change, IXFR SOA chain unchecked); their cases are classified KNOWN only when the real code behaves exactly as the deviant model. Record order inside transfers is ascending in generated cases (hash order in recorded ones); all TTLs are equal; TSIG, the client transports and the sender's batcher internals are outside the model; an IXFR answer whose first message holds only the SOA is by design read as the RFC 1995 retry signal and such packagings are excluded.",
+    "text": "Xfr.tla transcribes the transfer sender (AXFR/IXFR sequences, any packaging into messages), XfrResponseInterpreter (check_response, process_record, the update iterator), ZoneUpdater::apply on committed+pending content and the commit-time diff capture, next to a declarative reading of a record stream after RFC 5936 2.2 / RFC 1995 4. A record is (owner, type, RDATA, TTL) with one TTL per RRset (RFC 2181 5.2); versions differ in members, in an RRset's TTL alone, or in a TTL together with losing, gaining or replacing members. TLC checks, for every old/new zone pair over a small record universe (condensed and two-step histories, differences worded RFC 1995 style and the way the zone's own difference sets word them), every packaging into up to three messages and every single message fault (drop, duplicate, swap, truncate, header corruption, wrong question, a SOA with the same serial but other RDATA) at every position, that transfers reproduce the sender's zone TTLs included, that every version a reader can see is one the stream completely described, that reported diffs applied to the old content give the new content, and that invalid streams end in an error without panic. Every explored stream is rendered with the real MessageBuilder and replayed through the real interpreter + updater on a real in-memory zone (updates, errors, diffs and walk() content with TTLs compared after every message); recorded runs of the real XfrMiddlewareSvc sender over a zone the primary edits through ZoneUpdater and through WritableZoneNode::update_rrset/remove_rrset (AXFR and IXFR from every serial, from an up-to-date and a newer client, multi-message) are validated by TLC against the model and fed back through the real receiver.",
+    "note": "Trusted: TLC, the transcription in Xfr.tla, the harness projections. Named deviations (interpreter panic on a non-XFR question type and duplicate RRs kept: repaired; commit diff not the net change, IXFR SOA chain unchecked, a TTL change lost by the commit diff: open); their cases are classified KNOWN only when the real code behaves exactly as the deviant model. Record order inside transfers is ascending in generated cases (hash order in recorded ones); the SOA's own TTL is fixed; where RFC 1995 is silent (a deleted RR whose TTL differs from the stored one) the model follows ZoneUpdater: the RRset takes the TTL of the RR mentioned last; TSIG, the client transports and the sender's batcher internals are outside the model; an IXFR answer whose first message holds only the SOA is by design read as the RFC 1995 retry signal and such packagings are excluded.",
     "technique": "TLA+ spec (Xfr.tla) + TLC exhaustive over histories x packagings x single faults; spec->impl behaviour replay; impl->spec trace validation of the real sender and receiver",
     "design_ref": "DESIGN.md §4 C10",
 }
@@ -28,7 +28,11 @@ def run(ctx):
     ctx.build("replay_xfr", "record_xfr")
 
     # 1. the specification satisfies the property (ideal design, Dev = {})
-    for part, actions in (("fid", ACTIONS_FID), ("fault", ACTIONS_FAULT), ("ixfr2", ACTIONS_FID)):
+    # part "ttl": TTLs as zone content (quick: single-message packagings incl.
+    # two-step histories; thorough: packagings, faults and, as "ttl2", the
+    # two-step histories in two messages)
+    parts = ["fid", "fault", "ixfr2", "ttl"] + (["ttl2"] if thorough else [])
+    for part in parts:
         # no -coverage: TLC's coverage bookkeeping runs out of memory on the
         # recursive operators of this spec; the vacuity guard is done below
         # from the search depth and the generated cases
@@ -43,11 +47,16 @@ def run(ctx):
     dv = ctx.tlc("MC_Xfr", "MC_Xfr_dev", workers=8, label="mc-dev", count=False, coverage=False,
                  expect_violation="FaultRejectedOrHarmless")
     ctx.require_ok(dv, "MC_Xfr_dev (deviant model must violate the property)")
+    # the diff capture as built loses a change of an RRset's TTL: an IXFR
+    # worded from the zone's own difference sets does not reproduce the zone
+    dt = ctx.tlc("MC_Xfr", "MC_Xfr_devttl", workers=4, label="mc-devttl", count=False, coverage=False,
+                 expect_violation="IxfrFidelity")
+    ctx.require_ok(dt, "MC_Xfr_devttl (deviant diff capture must violate IXFR fidelity)")
 
     # 2. S->I: every explored stream is replayed into the real interpreter + updater
     first = True
     total = 0
-    for part in ("fault", "ixfr2", "fid"):
+    for part in ["fault", "ixfr2", "fid", "ttl"] + (["ttl2"] if thorough else []):
         cases = os.path.join(ctx.work, "cases-%s.ndjson" % part)
         gen = ctx.tlc("MC_Xfr", "Gen_Xfr_%s%s" % (part, sfx), workers=8, label="gen-" + part,
                       coverage=False, cases_to=cases, count=False, env=_dev_env(ctx), timeout=3000)
@@ -70,12 +79,19 @@ def run(ctx):
         with open(cases) as f:
             for line in f:
                 c = json.loads(line)["in"]
-                for key in ("fault:" + c["fault"][0], "kind:" + c["kind"]):
+                keys = ["fault:" + c["fault"][0], "kind:" + c["kind"]]
+                if c["fault"][0] == "none":
+                    # TTL changes by class, transfer kind and wording of the differences
+                    wording = c["kind"][:4] + ("-" + c["style"] if c["kind"].startswith("ixfr") else "")
+                    keys += ["%s:%s" % (k, wording) for k in c["cls"]]
+                for key in keys:
                     d, g = ctx.coverage_actions.get(key, (0, 0))
                     ctx.coverage_actions[key] = (d + 1, g + 1)
 
     need = ["fault:" + f for f in ("none", "drop", "dup", "swap", "trunc", "hdr", "wrongq", "csoa")] + \
-           ["kind:" + k for k in ("axfr", "ixfr1", "ixfr2", "fallback", "uptodate")]
+           ["kind:" + k for k in ("axfr", "ixfr1", "ixfr2", "fallback", "uptodate")] + \
+           ["%s:%s" % (k, w) for k in ("ttl_only", "ttl_shrink", "ttl_grow", "ttl_replace")
+            for w in ("axfr", "ixfr-rfc", "ixfr-stamped") if (k, w) != ("ttl_only", "ixfr-stamped")]
     missing = [n for n in need if ctx.coverage_actions.get(n, (0, 0))[1] == 0]
     if missing:
         raise vlib.ToolError("vacuity: never generated: %s" % missing)
@@ -99,6 +115,15 @@ def run(ctx):
             ctx.violation("recorded sender/receiver run is not explained by Xfr.tla", rej)
         if not any(e["ev"] == "xfer_bad" for e in evs):
             raise vlib.ToolError("no corrupted-closing-SOA stream was recorded")
+        # vacuity guard: the primary's own edits changed TTLs in every way, the
+        # changes were transferred incrementally, up-to-date clients were served
+        seen = set(c for e in evs if e["ev"] == "commit" and e["mode"] == "direct" for c in e["classes"])
+        if seen != {"ttl_only", "ttl_shrink", "ttl_grow", "ttl_replace"} or \
+                not any(e["ev"] == "commit" and e["mode"] == "updater" for e in evs) or \
+                not any(e["ev"] == "xfer_utd" for e in evs) or \
+                not any(e["ev"] == "xfer" and e["req"] == 251 and e["from"] >= 1 and
+                        any(m["an"][j] >= 1000 for m in e["msgs"] for j in range(len(m["an"]))) for e in evs):
+            raise vlib.ToolError("recorder: TTL change classes %s / session modes / up-to-date answer missing" % sorted(seen))
         if ok and i == 0:
             # (Trace_Xfr requires size + reserved <= 65535 of every message, so
             # a transfer that should have been split and was not is a rejected
@@ -109,7 +134,7 @@ def run(ctx):
             if multi == 0 or small == 0 or not any(e["ev"] == "xfer_udp" for e in evs):
                 raise vlib.ToolError("recorder produced no multi-message / UDP transfer")
             # binding self-tests: a corrupted trace must be rejected
-            for what in ("drop-record", "final-content"):
+            for what in ("drop-record", "final-content", "final-ttl"):
                 bad = os.path.join(ctx.work, "trace-bad-%s.ndjson" % what)
                 evs2 = json.loads(json.dumps(evs))
                 for e in evs2:
@@ -117,15 +142,25 @@ def run(ctx):
                         if what == "drop-record":
                             del e["msgs"][0]["an"][2]
                             e["msgs"][0]["anc"] -= 1
-                        else:
+                        elif what == "final-content":
                             e["rfinal"]["recs"] = e["rfinal"]["recs"][1:]
+                        else:
+                            # the receiver ends with one RRset under another TTL
+                            r = e["rfinal"]["recs"]
+                            r[0] = r[0] + 1000 if r[0] < 1000 else r[0] - 1000
+                            for j in range(1, len(r)):
+                                if (r[j] % 1000 - 1) // 2 == (r[0] % 1000 - 1) // 2:
+                                    r[j] = r[j] % 1000 + 1000 * (r[0] // 1000)
+                            r.sort()
                         break
                 vlib.write_ndjson(bad, evs2)
                 ok2, _, _ = ctx.validate_trace("Trace_Xfr", "Trace_Xfr", bad,
                                                label="trace-selftest-" + what, env=_dev_env(ctx))
                 ctx.selftest("corrupted trace (%s) is rejected by Trace_Xfr" % what, not ok2)
 
-    ctx.assume("record universe: 4 owner names (apex, child, name below the child, name below an empty non-terminal) x {A, TXT} x 2 values; all TTLs equal; SOA identified by its serial")
+    ctx.assume("record universe: 4 owner names (apex, child, name below the child, name below an empty non-terminal) x {A, TXT} x 2 values; one TTL per RRset out of 2 (generated) / 3 (recorded) values, the SOA's TTL fixed; SOA identified by serial + RDATA variant")
+    ctx.assume("RRs of a transfer are named by owner, type and RDATA; an RRset's TTL is the one carried by the RRs of it the transfer mentioned last (what ZoneUpdater does and the zone's own difference sets rely on); RFC 1995 is silent on a deleted RR whose TTL differs from the stored one")
+    ctx.assume("the 'stamped' wording of a difference sequence (InMemoryZoneDiff as built: only RDATA that leaves or arrives, what leaves stamped with the new TTL) is generated only for histories without a TTL-only change, which it cannot express")
     ctx.assume("generated transfers list records in ascending order; recorded transfers use the real sender's (hash) order")
     ctx.assume("an IXFR answer whose first message holds only the SOA is the RFC 1995 retry/up-to-date signal; such packagings are excluded from the fidelity claim")
     ctx.assume("the caller's duty (Message::is_answer on the first message) is part of the modelled receiver; error values are compared as accept/reject")
